@@ -379,7 +379,7 @@ class Node(object):
         Decides if priority preemption is needed, finds the individual to preempt, and preempt them.
         """
         if self.priority_preempt != False and self.c > 0:
-            in_service = [s.cust for s in self.servers if not s.cust.is_blocked]
+            in_service = [s.cust for s in self.servers if not s.cust.is_blocked and not s.offduty]
             if len(in_service) == 0:
                 return
             least_priority = max(ind.priority_class for ind in in_service)
